@@ -65,6 +65,13 @@ RECEIVER_TAGS = {
 # entry point + panic message + source file of the panic site; anything else is a VIOLATION.
 
 KNOWN = [
+    {"id": "C06a", "entry": r"reentrant:(iterator\.fold|list\.(sort|transform)|map\.sort)", "file": "memory/src/ptr_impl/rc.rs",
+     "msg": r"RefCell already (mutably )?borrowed",
+     "what": "RefCell double borrow: a callback that reads or writes the receiver, called while the function holds "
+             "the receiver's borrow -- exactly list.sort, list.transform, map.sort with a key function and "
+             "iterator.fold over an iterator that the callback advances or copies (keyed by function: any other "
+             "callback-taking function starting to do this is a violation)",
+     "witness": "z = [3, 1, 2]; z.transform |x| size z"},
     {"id": "C06a", "entry": r"list\.(extend|swap|retain|sort|contains)|map\.(extend|sort)|text:run", "file": "memory/src/ptr_impl/rc.rs",
      "msg": r"RefCell already (mutably )?borrowed",
      "what": "RefCell double borrow (rc build): a container function is given its own receiver (l.extend l, l.swap l, "
@@ -101,7 +108,7 @@ KNOWN = [
      "what": "koto_format slices the source at a byte offset computed from character columns: panics on lines "
              "containing multi-byte characters",
      "witness": "print '{number.pi𝜋^8.2}'"},
-    {"id": "C06n", "entry": r"text:run|list\.retain", "file": "core_lib/list.rs", "msg": r"index out of bounds: the len is",
+    {"id": "C06n", "entry": r"text:run|list\.retain|reentrant:list\.retain", "file": "core_lib/list.rs", "msg": r"index out of bounds: the len is",
      "what": "list.retain with a predicate that shrinks the list: indexes with the length read before the loop",
      "witness": "l = [1, 2, 3]; l.retain |x| l.pop() == null"},
 ]
@@ -371,7 +378,7 @@ def calibrate_fillers(binp, tier):
     return out
 
 
-def text_jobs(tier, seed, first_id, binp=None):
+def text_jobs(tier, seed, first_id, binp=None, entries=None):
     rng = C.Rng(seed ^ 0xC06)
     jobs = []
     jid = first_id
@@ -431,6 +438,11 @@ def text_jobs(tier, seed, first_id, binp=None):
     dist["bytes_per_filler_statement"] = {k: round(v, 2) for k, v in bps.items()}
     crl = G.crlf_family(tier, rng, srcs)
     dist["CRLF / mixed line-ending family (multi-line tokens before failing statements, pool, corpus)"] = len(crl)
+    ree = G.reentrant_family(tier, rng, entries or [])
+    dist["re-entrant callback family (callback reads / writes the receiver)"] = len(ree)
+    for origin, entry, src in ree:
+        jid += 1
+        jobs.append({"mode": "text", "id": jid, "src": src, "run": True, "origin": origin, "entry": entry, "cost": 2})
     for origin, src in fam + lim + cal + crl:
         jid += 1
         jobs.append({"mode": "text", "id": jid, "src": src, "run": True, "origin": origin,
@@ -459,6 +471,8 @@ def classify_panic(chk, entry, rec, stats):
 def entry_of(job, rec):
     if job["mode"] in ("calls", "repeat"):
         return f"{job['module']}.{job['fn']}"
+    if job.get("entry") and rec.get("phase") in ("run", "display", "run-error-display"):
+        return job["entry"]
     return "text:" + str(rec.get("phase"))
 
 
@@ -476,7 +490,7 @@ def sweep(chk, binp, tier, seed, modelled_jobs=None):
         extra.append({"mode": "repeat", "id": first + k, "module": module, "fn": fn, "form": "f",
                       "args": [P.INDEX[a] for a in args], "times": times, "cost": 50})
     first += len(extra) + 1
-    tjobs, tdist = text_jobs(tier, seed, first, binp)
+    tjobs, tdist = text_jobs(tier, seed, first, binp, entries)
     mjobs = modelled_jobs(first + len(tjobs) + 10) if modelled_jobs else []
     alljobs = jobs + extra + tjobs + mjobs
     byid = {j["id"]: j for j in alljobs}
